@@ -470,6 +470,20 @@ func c19Run(c *core.Ctx, idx int) {
 			faulted := false
 			for i, q := range hist {
 				if i == k {
+					if k > 0 && c.Rng.Intn(3) == 0 {
+						// Before the fault the storage is scanned once more (a
+						// second engine is built on it, as applications with a
+						// DNS and a web engine do): what the first engine has
+						// materialised stays materialised.
+						c.Guard("second-engine-on-the-same-storage", nil, w, func() {
+							if kind == "dns" {
+								_ = urlfilter.NewNetworkEngine(t.storage)
+							} else {
+								_ = urlfilter.NewDNSEngine(t.storage)
+							}
+						})
+						c.Event("fault_points_after_a_second_scan_of_the_storage", 1)
+					}
 					if ierr := c19Inject(t, fault, dir); ierr != nil && !strings.HasPrefix(fault, "storage-close") {
 						c.Inconclusive("fault injection failed")
 					}
